@@ -31,7 +31,7 @@ PROPERTIES = {
     "C06": dict(
         modules=["contracts.c06_input_types", "contracts.c06_defaults", "contracts.c18_names", "contracts.c09_pruning", "contracts.c04_modules"],
         bounded=[_bounded.lazy("contracts.e2e_scalars", "bounded_scalar_positions"), _bounded.lazy("contracts.c09_pruning", "bounded_pruning"), _bounded.lazy("contracts.e2e_variables", "bounded_variables"),
-                 _bounded.lazy("contracts.c11_multipart", "bounded_agreement")],
+                 _bounded.lazy("contracts.c11_multipart", "bounded_agreement"), _bounded.lazy("contracts.e2e_fuzz_inputs", "bounded_generated_inputs")],
         explanation="input type translator and default-literal translator against the image/coercion spec functions, by structural induction",
         assumptions=["acceptance/refusal of concrete values by the emitted annotations is pydantic's (assumed contract)"],
     ),
@@ -123,7 +123,8 @@ PROPERTIES = {
     "C03": dict(
         modules=["contracts.c03_arguments", "contracts.c11_clients", "contracts.c06_input_types", "contracts.c06_defaults", "contracts.c07_scalars", "contracts.c13_ws"],
         bounded=[_bounded.lazy("contracts.e2e_variables", "bounded_method_locals"), _bounded.lazy("contracts.e2e_variables", "bounded_variables"),
-                 _bounded.lazy("contracts.c11_multipart", "bounded_separation"), _bounded.lazy("contracts.c11_multipart", "bounded_wire")],
+                 _bounded.lazy("contracts.c11_multipart", "bounded_separation"), _bounded.lazy("contracts.c11_multipart", "bounded_wire"),
+                 _bounded.lazy("contracts.e2e_fuzz_inputs", "bounded_generated_inputs")],
         explanation="variable annotation translator, local-name freshness, run-time value conversion; whole calls by an end-to-end bounded stand-in with graphql-core's variable coercion",
         assumptions=["that dumped JSON coerces to the caller's values is pydantic's and graphql-core's (assumed, sampled by the stand-in)"],
     ),
